@@ -143,6 +143,48 @@ def arithPrim {D : Type} [DecidableEq D] (A : Arith F) (tbl : String → Option 
     (atol rtol : F) : Prim F :=
   ⟨convA A tbl, iscloseA A atol rtol⟩
 
+/-! ### The `!condition` of the common shape `{?} <op> literal [unit]` as a function of the final value
+
+Mirrors `LogicalSolver.solve` on the three tokens `{?}`, operator, literal with `{?}` bound to the
+node's final value (a typed Integer/Float value, so `NumberType._prepare` takes the branch
+"other datatype unknown": the LITERAL is converted to the value's unit with `NumberType.convert`
+and made a float), then `CustomEq` / `CustomNe` (= not `==`) / `__lt__` / `__gt__` / `__le__` /
+`__ge__` of `dip/datatypes/type_number.py` — the same semantics as `cmpOp`/`prepare` (branch
+`.num, .lit`) of `Model/C18Log.lean`, here with the primitives of THIS model. -/
+
+inductive CmpOp where
+  | eq | ne | lt | gt | le | ge
+deriving Repr, DecidableEq
+
+/-- `{?} <op> lit unit` -/
+structure SimpleCond (F : Type) where
+  op : CmpOp
+  lit : F
+  unit : Option String
+
+/-- Python's `left < right` written with the `le` of the arithmetic (false as soon as a NaN is involved) -/
+def ltA (A : Arith F) (a b : F) : Bool := A.le a b && !A.le b a
+
+/-- the six comparisons on the prepared pair `(left, right)` -/
+def cmpWith (isclose lt : F → F → Bool) : CmpOp → F → F → Bool
+  | .eq, x, y => isclose x y
+  | .ne, x, y => !isclose x y
+  | .lt, x, y => lt x y
+  | .gt, x, y => lt y x
+  | .le, x, y => lt x y || isclose x y
+  | .ge, x, y => lt y x || isclose x y
+
+/-- value of the condition `{?} <op> lit unit` on the final numeric value `x` with unit `ux`;
+    `none` = the solver raises (literal not convertible to the value's unit) -/
+def condNum (P : Prim F) (lt : F → F → Bool) (c : SimpleCond F) (x : F) (ux : Option String) : Option Bool :=
+  (P.conv c.unit ux c.lit).map fun y => cmpWith P.isclose lt c.op x y
+
+/-- a numeric node whose final value is `x ux` and whose `!condition` is the simple comparison `c`:
+    `Node.condition` is a function of the final value -/
+def withNumCond (P : Prim F) (lt : F → F → Bool) (n : Node F) (c : SimpleCond F) (x : F)
+    (ux : Option String) : Node F :=
+  { n with value := some (.num x ux), condition := some (condNum P lt c x ux) }
+
 /-! ### Specification -/
 
 /-- a value equals an option "after conversion to the node's unit" -/
